@@ -763,6 +763,49 @@ fn main_check(ctx: &Ctx) -> Outcome {
             }
         }
     }
+    // a coloured write into a writer that panics (on this thread and on another one; the panic is caught), then an
+    // ordinary coloured write into a Vec: whatever write_colored shares between calls must not be left broken
+    {
+        struct PanickingWriter;
+        impl Write for PanickingWriter {
+            fn write(&mut self, _b: &[u8]) -> io::Result<usize> {
+                panic!("writer of the harness panics on purpose")
+            }
+            fn flush(&mut self) -> io::Result<()> {
+                Ok(())
+            }
+        }
+        let boom = || {
+            let _ = std::panic::catch_unwind(|| {
+                let mut w: Box<dyn Write + Send> = Box::new(PanickingWriter);
+                w.write_colored(colour(2), colour(5), b"x")
+            });
+        };
+        boom();
+        let _ = std::thread::spawn(boom).join();
+        for (fgi, bgi) in [(0usize, 0usize), (2, 0), (0, 5), (10, 16)] {
+            direct_runs += 1;
+            let data = b"after";
+            let r = std::panic::catch_unwind(|| {
+                let mut nofile = None;
+                run_direct(0, fgi, bgi, data, &mut nofile)
+            });
+            let verdict = match r {
+                Err(_) => Err(("panic".to_string(), format!("write_colored panicked after an earlier call whose writer had panicked: {}", last_panic()))),
+                Ok(Err(m)) => Err(("harness-io".to_string(), m)),
+                Ok(Ok((bytes, res))) => judge(fgi, bgi, data, &bytes, None, &res, &opts).map(|_| ()),
+            };
+            if let Err((clause, msg)) = verdict {
+                out.findings.push(Finding {
+                    system: "write_colored/Vec<u8> after a panicking writer".into(),
+                    clause,
+                    case: vec![format!("fg={}", colour_name(fgi)), format!("bg={}", colour_name(bgi))],
+                    message: msg,
+                    replay: json!({"kind":"direct-bytes","fg":fgi,"bg":bgi,"data":hex(data)}),
+                });
+            }
+        }
+    }
     let _ = std::fs::remove_file(&fpath);
     out.push_part(json!({"system": "real writers", "writers": DIRECT, "runs": direct_runs, "temp_file_dir": dir, "rejecting_file_runs": rejecting_runs}));
 
